@@ -114,23 +114,40 @@ def mk_unit(be, tls, tier, table_ops=True):
     # ---- impl_invoke_with_func_ptr: current sandbox set for the duration of the call and restored afterwards
     GSTUB = ('int guest_fn_stub(long a0)\n'
              '__CPROVER_requires((unsigned long)%s.sandbox == g_expect_current) /*@current_sandbox_is_this_during_the_call*/\n'
+             '__CPROVER_requires(g_armed_guards == 1) /*@a_guard_that_restores_the_previous_sandbox_is_armed_during_the_call*/\n'
              '__CPROVER_ensures(g_gcalls == __CPROVER_old(g_gcalls) + 1 && g_garg0 == a0 && __CPROVER_return_value == g_gret)\n'
              '__CPROVER_assigns(g_gcalls, g_garg0);\n' % TD)
-    IG = PRE_GHOST + ' unsigned g_gcalls; long g_garg0; int g_gret; unsigned long g_expect_current;\n'
-    cl = [('obj', '__CPROVER_requires(__CPROVER_rw_ok($this, sizeof(struct %s)) && g_gcalls == 0 && g_expect_current == (unsigned long)$this)' % BS),
+    IG = PRE_GHOST + ' unsigned g_gcalls; long g_garg0; int g_gret; unsigned long g_expect_current; unsigned g_armed_guards;\n'
+    cl = [('obj', '__CPROVER_requires(__CPROVER_rw_ok($this, sizeof(struct %s)) && g_gcalls == 0 && g_armed_guards == 0 && g_expect_current == (unsigned long)$this)' % BS),
+          ('every_guard_has_run', '__CPROVER_ensures(g_armed_guards == 0)'),
           ('called_once_with_the_argument', '__CPROVER_ensures(g_gcalls == 1 && g_garg0 == *$1 && $ret == g_gret)'),
           ('previous_current_sandbox_restored', '__CPROVER_ensures(%s.sandbox == __CPROVER_old(%s.sandbox))' % (TD, TD)),
-          ('frame', '__CPROVER_assigns(%s.sandbox, g_gcalls, g_garg0)' % TD)]
-    h = ('  struct %s be; struct %s other; _Bool in_nested; %s.sandbox = in_nested ? &other : (struct %s *)0; g_gcalls = 0; g_expect_current = (unsigned long)&be; int in_ret; g_gret = in_ret; long in_a;\n'
+          ('frame', '__CPROVER_assigns(%s.sandbox, g_gcalls, g_garg0, g_armed_guards)' % TD)]
+    h = ('  struct %s be; struct %s other; _Bool in_nested; %s.sandbox = in_nested ? &other : (struct %s *)0; g_gcalls = 0; g_armed_guards = 0; g_expect_current = (unsigned long)&be; int in_ret; g_gret = in_ret; long in_a;\n'
          '  int r = $ROOT(&be, guest_fn_stub, &in_a);\n' % (BS, BS, TD, BS))
     pick = lambda tu, fn: find_func(tu, 'impl_invoke_with_func_ptr', 'rlbox::' + cls)
     insts.append(Inst('c12_%s_%s_invoke_saves_restores' % (be, tls), 'rlbox_sandbox<%s>& s, long a' % cls, 's.INTERNAL_invoke_with_func_ptr<int(long)>("f", (void*)0, a);', cl, h,
                       leaves=['dynamic_check'], prop=PROP, root_name='impl_invoke_with_func_ptr', tier=tier, pre=IG, post_protos=GSTUB, root_pick=pick,
-                      opts={'param_fn_stubs': {'*': 'guest_fn_stub'}}, extra_replace=['guest_fn_stub'],
+                      opts={'param_fn_stubs': {'*': 'guest_fn_stub'}, 'dtor_ghost': True}, extra_replace=['guest_fn_stub'],
                       note='scope_exit guard lowered by L-dtor: destructor call at the return; nested invocation = a non-null previous current sandbox'))
+    # ---- the remaining backend member functions that run between registrations: they must leave the slot table alone
+    # (a registration survives destroy_sandbox / create_sandbox with its owner, C13)
+    lifecycle = [('impl_destroy_sandbox', 's.destroy_sandbox();', '$ROOT(&be);')]
+    if be == 'noop':
+        lifecycle.append(('impl_create_sandbox', 's.create_sandbox();', '$ROOT(&be);'))
+    for fnm, expr, call in lifecycle:
+        cl = [('obj', '__CPROVER_requires(__CPROVER_rw_ok($this, sizeof(struct %s)))' % BS),
+              ('slot_table_untouched', '__CPROVER_ensures(%s)' % conj(lambda i: '(%s == __CPROVER_old(%s) && %s == __CPROVER_old(%s))' % (K(i), K(i), C(i), C(i)))),
+              ('frame', '__CPROVER_assigns(__CPROVER_object_whole($this))')]
+        h = '  struct %s be;\n  %s\n' % (BS, call)
+        pick = lambda tu, fn, fnm=fnm: find_func(tu, fnm, 'rlbox::' + cls)
+        insts.append(Inst('c12_%s_%s_%s_keeps_slot_table' % (be, tls, fnm), 'rlbox_sandbox<%s>& s' % cls, expr, cl, h, leaves=['dynamic_check'], prop=PROP, root_name=fnm, tier=tier,
+                          pre=PRE_GHOST + ' int dlclose(void *handle)\n__CPROVER_requires(1)\n__CPROVER_ensures(1)\n__CPROVER_assigns();\n', root_pick=pick,
+                          opts={'extern_functions': ('dlclose',)}, extra_replace=['dlclose'],
+                          note='frame of a backend life-cycle function over the 64-slot table'))
     if not table_ops:
         # register/unregister do not touch the per-thread record: TLS-independent, verified once per backend
-        insts = [it for it in insts if not (it.name.endswith('_register') or it.name.endswith('_unregister'))]
+        insts = [it for it in insts if not (it.name.endswith('_register') or it.name.endswith('_unregister') or it.name.endswith('_keeps_slot_table'))]
     defines = ['RLBOX_SINGLE_THREADED_INVOCATIONS']
     extra = B['extra']
     if tls == 'embedder':
@@ -199,7 +216,7 @@ def units(tier):
 ASSUMPTIONS = [
     'sequential semantics: thread_local records are one global per thread (M-lock, single thread); cross-thread interference is C18 (not claimed)',
     'calls through function pointers are recording stubs: the callee behaves arbitrarily but returns; which pointer was called and with what is recorded',
-    'L-dtor: the scope_exit guard\'s destructor runs at the return of impl_invoke_with_func_ptr (C++ scope-exit order assumed; exceptional exits are C19)',
+    'L-dtor: the scope_exit guard\'s destructor runs at the return of impl_invoke_with_func_ptr (C++ scope-exit order assumed); for exits by exception the proved part is that a restoring guard is armed (ghost count of live guards == 1) whenever sandboxed code runs',
     'dispatch lemma (DESIGN.md C12): composed by hand from the per-function contracts: register puts (key, interceptor) in slot k and returns trampoline k; trampoline k records k and calls callbacks[k] of the current sandbox; get_executed returns (current, keys[k]); the interceptor calls keys[k] once with the executing sandbox and converted arguments',
 ]
 TRUSTED = ['$FTABLE: the specification table of entry points is the list of instantiated callback_trampoline<N,...> functions ordered by N as clang instantiated them']
